@@ -267,7 +267,7 @@ func main() {
 		debugDump(c)
 		return
 	}
-	reps, nModels, nForeign, cliModels, cliReps := 8, 12, 4, 1, 2
+	reps, nModels, nForeign, cliModels, cliReps := 6, 8, 3, 1, 2
 	if c.Thorough() {
 		reps, nModels, nForeign, cliModels, cliReps = 30, 40, 12, 2, 6
 	}
@@ -284,9 +284,19 @@ func main() {
 
 	syslGens := gensFor("sysl", false)
 	slowGens := append(gensFor("sysl", true), gensFor("sysl-delta", true)...)
-	slowReps, slowModels := 3, 2
+	slowReps, slowModels := 2, 1
 	if c.Thorough() {
 		slowReps, slowModels = 12, 10
+	} else {
+		// quick tier: `export -f spanner` (and the arr.ai OpenAPI3 importer below) cost several seconds per call
+		// and hold a worker for the whole run on a loaded machine: thorough tier only
+		var keep []*generator
+		for _, g := range slowGens {
+			if g.name != "export:spanner" {
+				keep = append(keep, g)
+			}
+		}
+		slowGens = keep
 	}
 	c.Res.Extra["reps_slow_generators"] = slowReps
 
@@ -296,13 +306,16 @@ func main() {
 		if skip("corpus") {
 			break
 		}
-		r.submit(syslGens, in, reps*2, fmt.Sprintf("corpus[%d]", i), nil)
+		r.submit(syslGens, in, reps+2, fmt.Sprintf("corpus[%d]", i), nil)
 		c.Hist("stream:corpus")
 	}
 	// stream 2: generated models
 	var models []*model
 	for i := 0; i < nModels; i++ {
-		size := []int{1, 2, 1, 0, 2}[i%5]
+		size := []int{1, 0, 1, 2, 0, 1, 1, 2}[i%8]
+		if c.Thorough() {
+			size = []int{1, 2, 1, 0, 2}[i%5]
+		}
 		m := genModel(c.Rng.Fork(), size)
 		models = append(models, m)
 		in := inputOf(m)
@@ -334,9 +347,9 @@ func main() {
 			break
 		}
 		gs := append(gensFor(kind, false), gensFor(kind, true)...)
-		nf, nr, rp := nForeign, 8, reps
-		if gs[0].slow { // the OpenAPI3 importer runs an arr.ai script: seconds per call
-			nf, nr, rp = 1, 1, 2
+		nf, nr, rp := nForeign, 4, reps
+		if gs[0].slow { // the OpenAPI3 importer runs an arr.ai script: seconds per call; thorough tier only
+			nf, nr, rp = 0, 0, 2
 			if c.Thorough() {
 				nf, nr, rp = 4, 6, 4
 			}
@@ -364,7 +377,7 @@ func main() {
 	// stream 6: CLI subprocesses
 	if bin := os.Getenv("VERIF_SYSL_BIN"); bin != "" {
 		for i := 0; i < cliModels && i < len(models); i++ {
-			r.cli(bin, models[i*2+1], cliReps)
+			r.cli(bin, models[i*2+1], cliReps, c.Thorough())
 		}
 	} else {
 		c.Res.Notes = append(c.Res.Notes, "VERIF_SYSL_BIN not set: CLI subprocess repetitions skipped")
